@@ -38,7 +38,7 @@ use crate::parser::{InternalParseError, InternalParserResult};
 use super::{
     error::ParserErrorKind,
     expression::parse_expression,
-    lexer::{DataType, Modifier, Token},
+    lexer::{is_reserved_word, DataType, Modifier, Token},
     ParserInput,
 };
 
@@ -353,7 +353,11 @@ pub(crate) fn parse_qubit(input: ParserInput) -> InternalParserResult<Qubit> {
             ParserErrorKind::UnexpectedEOF("a qubit"),
         ))),
         Some((Token::Integer(value), remainder)) => Ok((remainder, Qubit::Fixed(*value))),
-        Some((Token::Variable(name), remainder)) => Ok((remainder, Qubit::Variable(name.clone()))),
+        // A qubit variable is written back without the `%`, so `%DELAY` (a reserved word) would
+        // print as text that no longer parses.
+        Some((Token::Variable(name), remainder)) if !is_reserved_word(name) => {
+            Ok((remainder, Qubit::Variable(name.clone())))
+        }
         Some((Token::Identifier(name), remainder)) => {
             Ok((remainder, Qubit::Variable(name.clone())))
         }
@@ -370,7 +374,9 @@ pub(crate) fn parse_variable_qubit(input: ParserInput) -> InternalParserResult<S
             input,
             ParserErrorKind::UnexpectedEOF("a variable qubit"),
         ))),
-        Some((Token::Variable(name), remainder)) => Ok((remainder, name.clone())),
+        Some((Token::Variable(name), remainder)) if !is_reserved_word(name) => {
+            Ok((remainder, name.clone()))
+        }
         Some((Token::Identifier(name), remainder)) => Ok((remainder, name.clone())),
         Some((other_token, _)) => {
             expected_token!(input, other_token, stringify!($expected_variant).to_owned())
